@@ -394,7 +394,9 @@ func Large(n, pattern, payload int) []Doc {
 
 // MergeKinds orders the MIX kinds so that a prefix is already diverse (1-hit candidates,
 // locations+stored, composite, a field only some segments have, ...).
-var MergeKinds = []int{1, 2, 4, 6, 0, 3, 5, 7, 8, 9, 10, 11}
+// The first three have pairwise different field lists of which one is a prefix of the others
+// ([_id a b] with stored a, [_id a z] with stored a and z, [_id]); the fourth adds 1-hit candidates.
+var MergeKinds = []int{2, 6, 0, 1, 4, 3, 5, 7, 8, 9, 10, 11}
 
 // SegSpec is one input segment of a merge case: the kinds of its documents and its deletions.
 type SegSpec struct {
